@@ -167,4 +167,20 @@ mod test {
             "#,
         ));
     }
+
+    #[test]
+    fn test_duplicate_names_in_one_local_stat_later_one_wins() {
+        let mut ws = VirtualWorkspace::new();
+        let file_id = ws.def("local a, a = 1, 2\nprint(a)\n");
+        let db = ws.analysis.compilation.get_db();
+        let tree = db
+            .get_decl_index()
+            .get_decl_tree(&file_id)
+            .expect("decl tree must exist");
+        // the `a` of `print(a)` is at offset 24; the later name (offset 9) shadows the earlier one (offset 6)
+        let decl = tree
+            .find_local_decl("a", rowan::TextSize::new(24))
+            .expect("local must be found");
+        assert_eq!(u32::from(decl.get_position()), 9);
+    }
 }
